@@ -24,6 +24,8 @@ func init() {
 			{"C13.R6", "q", "merge reports same-hash groups", c13r6},
 			{"C13.R7", "q", "hash function never replaced", c13r7},
 			{"C13.R8", "q", "nil-result discipline of the lookups", c13r8},
+			{"C14.R4", "q", "shared: hint file order and index search (lookup of colliding keys goes through it)", c14r4},
+			{"C18.R2", "q", "shared: keep table (collision entries)", c18r2},
 		},
 	})
 }
@@ -99,7 +101,7 @@ func c13r3(c *Ctx) {
 	// the keep table's collision entries exist
 	hasB, hasC := false, false
 	for _, s := range m.stores {
-		if !s.value {
+		if !s.value || len(s.unk) > 0 {
 			continue
 		}
 		switch s.signature() {
